@@ -116,13 +116,13 @@ theorem slots_after_history (K : Kernels) (m : Nat) (hist : List Op) (mg : Manag
     regression). -/
 theorem simulate_pure (K : Kernels) (ops : List GOp) (s : GSt) :
     (runG K ops s).1 = specG K ops s :=
-  runG_refines K ops s s ⟨rfl, ⟨rfl, rfl, rfl, rfl⟩⟩
+  runG_refines K ops s s ⟨rfl, ⟨rfl, rfl, rfl, rfl, rfl⟩⟩
 
 /-- In particular a simulation appended to any history returns what it returns on a new object
     with the same stored heights at the same borehole height. -/
 theorem simulate_after_any_history (K : Kernels) (ops : List GOp) (m : Method) (s : GSt) :
     (gstep K (.simulate m) (runG K ops s).2).1 = (gstep K (.simulate m) (resetS (runG K ops s).2)).1 :=
-  (gstep_eqv K (.simulate m) _ _ (relS_reset _ _ ⟨rfl, ⟨rfl, rfl, rfl, rfl⟩⟩)).1
+  (gstep_eqv K (.simulate m) _ _ (relS_reset _ _ ⟨rfl, ⟨rfl, rfl, rfl, rfl, rfl⟩⟩)).1
 
 /-- The interpolation table left behind is always the one a new object would build for the last
     multi-curve lookup: `lookupCore` returns the pair (kind for the number of curves, fill mode of
@@ -234,7 +234,7 @@ def K0 : Kernels :=
     fluidOk := fun _ => true
     geomOk := fun _ _ => true }
 
-def g3 : GHE := { (mkGHE st0 7 135) with gf := { heights := [60, 195 / 2, 135], table := none } }
+def g3 : GHE := { (mkGHE st0 7 135) with gf := { tok := "ubwt", heights := [60, 195 / 2, 135], table := none } }
 
 /-- Finding F7 (repaired by d422d00), kept as a regression: an hourly simulation after a hybrid
     one on the same object returns what it returns on a new object. -/
@@ -261,6 +261,21 @@ example :
       [.temps (7007 / 200, 11), .unit, .temps (6197 / 200, 23 / 2)] ∧
     (runG K0 [.simulate .hybrid, .setH 100, .simulate .hybrid, .simulate .hourly] { b := { H := 150, D := 2, rb := 7 / 100 }, g := g3 }).1 =
       specG K0 [.simulate .hybrid, .setH 100, .simulate .hybrid, .simulate .hourly] { b := { H := 150, D := 2, rb := 7 / 100 }, g := g3 } := by
+  decide +kernel
+
+/-- A kernel that also sees which g-function table the object holds. -/
+def K1 : Kernels := { K0 with sim := fun a => ((K0.sim a).1 + (if a.gtok = "calc" then 1 / 4 else 0), (K0.sim a).2) }
+
+/-- Regression for a seeded change that cached the combined g-function by height only: simulate,
+    replace the table (`compute_g_functions`, or assigning another table), simulate again at the
+    *same* height — the second call sees the new table, exactly as a new object holding it does. -/
+example :
+    (runG K1 [.simulate .hybrid, .cgf, .simulate .hybrid, .setGF "ubwt" [60, 135], .simulate .hybrid]
+        { b := { H := 100, D := 2, rb := 7 / 100 }, g := g3 }).1 =
+      [.temps (7007 / 200, 11), .unit, .temps (7057 / 200, 11), .unit, .temps (7007 / 200, 11)] ∧
+    specG K1 [.simulate .hybrid, .cgf, .simulate .hybrid, .setGF "ubwt" [60, 135], .simulate .hybrid]
+        { b := { H := 100, D := 2, rb := 7 / 100 }, g := g3 } =
+      [.temps (7007 / 200, 11), .unit, .temps (7057 / 200, 11), .unit, .temps (7007 / 200, 11)] := by
   decide +kernel
 
 def hist0 : List Op :=
